@@ -1011,6 +1011,28 @@ impl StoryState {
         Ok(())
     }
 
+    /// Checks that every argument is of a type that can be passed into ink,
+    /// without touching the state.
+    pub fn validate_arguments(arguments: Option<&Vec<ValueType>>) -> Result<(), StoryError> {
+        if let Some(arguments) = arguments {
+            for arg in arguments {
+                match arg {
+                    ValueType::Bool(_)
+                    | ValueType::Int(_)
+                    | ValueType::Float(_)
+                    | ValueType::List(_)
+                    | ValueType::String(_) => {}
+                    _ => {
+                        return Err(StoryError::InvalidStoryState("ink arguments when calling EvaluateFunction / ChoosePathStringWithParameters must be \
+                        int, float, string, bool or InkList.".to_owned()));
+                    }
+                }
+            }
+        }
+
+        Ok(())
+    }
+
     pub fn pass_arguments_to_evaluation_stack(
         &mut self,
         arguments: Option<&Vec<ValueType>>,
@@ -1456,8 +1478,10 @@ impl StoryState {
             self.switch_to_default_flow_internal();
         }
 
-        self.named_flows.as_mut().unwrap().remove(flow_name);
-        self.alive_flow_names_dirty = true;
+        if let Some(named_flows) = self.named_flows.as_mut() {
+            named_flows.remove(flow_name);
+            self.alive_flow_names_dirty = true;
+        }
 
         Ok(())
     }
